@@ -36,6 +36,34 @@ Additive == \A i \in DOMAIN hist : \A d \in hist[i].ddl : d.kind \in {"add_colum
 Monotone == \A i \in DOMAIN hist : hist[i].want \subseteq have
 RowsKeepColumns == \A r \in rows : r.cols \subseteq have
 
+\* ---- direction A: a history of the state graph run on a real table ---------------------------
+\* steps[i] = [want, have, nddl, err, rows, rows_after]: what the i-th AutoMigrate wanted, the elements the
+\* database really has afterwards, the number of DDL statements it issued, the rows stored then, and the
+\* rows after the driver inserted one more
+Pairs2(s) == {<<s[i][1], s[i][2]>> : i \in DOMAIN s}
+WantOf(st) == Pairs2(st.want) \cup {<<"tbl", "t">>}                  \* every model wants its table
+HistStepOK(prevHave, prevRows, st) ==
+  /\ st.err = "nil"
+  /\ LET have2 == Pairs2(st.have)
+         \* the property speaks of models that only grow: when the model still declares every index / constraint
+         \* the database has, exactly the missing elements are added and nothing is removed; a model that no
+         \* longer declares one may lose it when the SQLite dialector rebuilds the table (observation O11) --
+         \* then only: nothing wanted is missing, no column is lost, nothing undeclared appears
+         grown == {x \in prevHave : x[1] # "col"} \subseteq WantOf(st)
+     IN IF grown THEN have2 = prevHave \cup WantOf(st)
+        ELSE /\ WantOf(st) \subseteq have2 /\ {x \in prevHave : x[1] = "col"} \subseteq have2
+             /\ have2 \subseteq prevHave \cup WantOf(st)
+  /\ (WantOf(st) \subseteq prevHave => st.nddl = 0)                  \* nothing to do: no DDL at all
+  /\ Len(st.rows) = Len(prevRows)                                    \* no row lost or invented
+  /\ \A i \in DOMAIN prevRows : \A c \in DOMAIN prevRows[i] : st.rows[i][c] = prevRows[i][c]   \* every cell a row had is kept
+RECURSIVE HistFrom(_, _, _, _)
+\* index of the first step the reference rejects (0 = none)
+HistFrom(steps, i, prevHave, prevRows) ==
+  IF i > Len(steps) THEN 0
+  ELSE IF ~HistStepOK(prevHave, prevRows, steps[i]) THEN i
+  ELSE HistFrom(steps, i + 1, Pairs2(steps[i].have), steps[i].rows_after)
+HistOK(e) == HistFrom(e.steps, 1, {}, <<>>)
+
 \* ---- judgement of a recorded history --------------------------------------------------------
 SeqToSet(s) == {s[i] : i \in DOMAIN s}
 StepOf(e, name) == e.steps[CHOOSE i \in DOMAIN e.steps : e.steps[i].step = name]
